@@ -637,6 +637,8 @@ package parse
 //@   ensures ok: err == nil ==> r0 != nil && tcur(t) > old(tcur(t))
 
 //@ func parse.parseIf
+// C06: the node is (condition, then-body, else-part) as parsed; the else-part is never nil
+//@   asserts shape: err == nil ==> istype(r0, "*IfNode") && unbox(r0, "*IfNode").Cond == cond && unbox(r0, "*IfNode").Body == box(body, "*BodyNode") && unbox(r0, "*IfNode").Else == box(els, "*BodyNode") && els != nil
 // C20 (rejection): a tag that parses without error has been closed: the last token consumed is its (end tag's) TAG_CLOSE
 //@   ensures closed: err == nil ==> tokAt(t, tcur(t) - 1).tokenType == tokenTagClose
 //@   ensures anchor: err == nil ==> nposIs(r0, start)
@@ -647,6 +649,9 @@ package parse
 //@   ensures ok: err == nil ==> r0 != nil && tcur(t) > old(tcur(t))
 
 //@ func parse.parseIfBody
+// C06: an elseif chain is desugared into an else-part holding exactly the nested if
+//@   after "NewBodyNode(tok.Pos, in)" nested: len(result.Nodes) == 1 && result.Nodes[0] == in
+//@   asserts@tokenTagOpen nestedkept: err == nil && tok.value == "elseif" ==> len(els.Nodes) == 1
 //@   ensures closed: err == nil ==> tokAt(t, tcur(t) - 1).tokenType == tokenTagClose
 //@   requires tinv(t)
 //@   ensures wf: tinv(t) && tcur(t) >= old(tcur(t))
@@ -657,6 +662,9 @@ package parse
 //@   loop 1 decreases left(t)
 
 //@ func parse.parseFor
+// C06: key/value names as written, the sequence expression, the else body; an inline condition wraps the body in an
+// if node without else-part (rendering only the elements that satisfy it)
+//@   asserts shape: err == nil ==> r0.Key == kn && r0.Val == vn && r0.X == expr && r0.Else == elseBody && (ifCond == nil ==> r0.Body == body) && (ifCond != nil ==> istype(r0.Body, "*IfNode") && unbox(r0.Body, "*IfNode").Cond == ifCond && unbox(r0.Body, "*IfNode").Else == nil)
 // C20 (rejection): a tag that parses without error has been closed: the last token consumed is its (end tag's) TAG_CLOSE
 //@   ensures closed: err == nil ==> tokAt(t, tcur(t) - 1).tokenType == tokenTagClose
 //@   ensures anchor: err == nil ==> r0.Pos == start
